@@ -927,3 +927,27 @@ def t_perm_invariant(k):
         return w, thunk, {"kinds": [k, k], "clause": "members_order_irrelevant", "timeout_ms": TIMEOUT_MS, "retry_factor": 1, "fail_fast": True}
 
     return build
+
+
+def t_funcdep_lt():
+    """FuncDependentType.__lt__ (the order of two value-dependent types of one family with wildcard parameters):
+    a < b  iff  they have the same number of parameters, b has a wildcard (typing.Any) somewhere a has a value, and a has
+    no wildcard where b has a value.  Crossing wildcards therefore leave the two UNORDERED (C10: both methods apply ->
+    ambiguity error, never a silent choice)."""
+    from .universe import ANY, pval
+
+    w = MroWorld(unfold=0, sc_unfold=0)
+    w.inline("dependent:FuncDependentType.__lt__")
+
+    def thunk(I):
+        a, b = z3.Consts("t1 t2", TyS)
+        I.assume(z3.And(kind(a) == K["FuncDep"], kind(b) == K["FuncDep"], nargs(a) >= 0, nargs(b) >= 0))
+        r = I.truth(I.call_repo("dependent:FuncDependentType.__lt__", [TyV(a), TyV(b)], {}))
+        r = z3.BoolVal(r) if isinstance(r, bool) else r
+        i = z3.Int("wi")
+        wild = lambda t, j: pval(t, j) == ANY
+        b_more_general = z3.Exists([i], z3.And(0 <= i, i < nargs(a), wild(b, i), z3.Not(wild(a, i))))
+        a_more_general = z3.Exists([i], z3.And(0 <= i, i < nargs(a), wild(a, i), z3.Not(wild(b, i))))
+        I.require(r == z3.And(nargs(a) == nargs(b), b_more_general, z3.Not(a_more_general)), "less_iff_the_other_has_strictly_more_wildcards_positionwise")
+
+    return w, thunk, {"timeout_ms": TIMEOUT_MS, "fail_fast": True}
